@@ -937,7 +937,7 @@ func init() {
 		Setup: vLifeSetup,
 		Run:   vRunLife,
 		Meta: vMeta{Level: "exploration",
-			Rule: "case = (source, scenario, ordering constraint): Triangle, SimPulse, ErroringSource, a self-ending source (error block / closed channel), Abaco with scripted producers and over loopback UDP, Lancero with a scripted card, Roach over loopback UDP; scenarios: 2-5 start/stop cycles on one object (with writing in some), 2-4 concurrent Stop callers, Start while active, 1-2 failed Starts (hardware silent, card refusing in sampling or in StartRun) followed by a Start with data flowing, Stop racing or following self-termination (with and without writing active), a request pending while stopping; each ends with a restart of the same object. A verifPoint handler holds one goroutine at point A until point B has been passed (bounded, with fall-through) for pairs from {core.exit.err, core.exit.closed, deactivate.enter} x {stop.enter, stop.signalled, stop.waited} in both directions. Checked: refused second Start, Active + blocks after Start, every Stop returns (wait-state analysis), then Inactive, goroutine census clean, writing inactive, no file open below the output directory, restart delivers blocks; after a failed Start: Inactive, census clean, later Start succeeds; non-trivial = history completed",
+			Rule: "case = (source, scenario, ordering constraint): Triangle, SimPulse, ErroringSource, a self-ending source (error block / closed channel), Abaco with scripted producers and over loopback UDP, Lancero with a scripted card, Roach over loopback UDP; scenarios: 2-5 start/stop cycles on one object (with writing in some), 2-4 concurrent Stop callers, Start while active, 1-2 failed Starts (hardware silent, card refusing in sampling or in StartRun) followed by a Start with data flowing, Stop racing or following self-termination (with and without writing active), a request pending while stopping; each ends with a restart of the same object. A verifPoint handler holds one goroutine at point A until point B has been passed (bounded, with fall-through) for pairs from {core.exit.err, core.exit.closed, deactivate.enter} x {stop.enter, stop.signalled, stop.waited} in both directions. Checked: refused second Start, Active + blocks after Start, every Stop returns (wait-state analysis), then Inactive, goroutine census clean, writing inactive, no file open below the output directory, restart delivers blocks; after a failed Start: Inactive, census clean, later Start succeeds; non-trivial = history completed; additions: Stop while the core loop is held busy, Start while a Stop is under way, runs paused at the end, restarts with other channel counts, sources ending themselves on a time-out (Roach 2 s keep-alive; Abaco over UDP with the program's own periods)",
 			Assumptions: []string{"Stop during Start at the DataSource level is not generated (the RPC layer cannot produce it and the code documents it as unsupported)", "a worker goroutine counts as leaked if it is still there with the same frames 3 s and again 4.5 s after the last Stop returned",
 				"sources whose Stop path discards their devices (Abaco, Roach) are configured again before every Start, as the RPC clients do"},
 			Guards: map[string]map[string]int{
